@@ -56,6 +56,16 @@ class World(object):
     def path(self, p):
         return os.path.join(self.root, p)
 
+    def epath(self, p):
+        """the file name as the CALLER writes it when handing it to esutil: absolute, or with an environment
+        variable or a home-directory tilde that esutil expands itself (sfile and recfile both do)"""
+        form = self.cfg.get("pathform", "abs")
+        if form == "var":
+            return "$ESUTIL_SIMDISK/" + p
+        if form == "home":
+            return "~/" + p
+        return os.path.join(self.root, p)
+
     def table(self, rec, form, delim):
         key = sdigest([rec, form, delim])
         t = self.tabcache.get(key)
@@ -258,6 +268,11 @@ def execute(script, run, env):
     root = env.disk()
     w = World(root, run, script)
     mods = {"sfile": sfile, "recfile": recfile, "io": eio}
+    saved_env = {k: os.environ.get(k) for k in ("ESUTIL_SIMDISK", "HOME")}
+    if w.cfg.get("pathform", "abs") != "abs":
+        os.environ["ESUTIL_SIMDISK"] = root
+        os.environ["HOME"] = root
+        run.fault("file_names_expanded_by_esutil_" + w.cfg["pathform"])
     ncallers = len(set(op.get("c", 0) for op in script["ops"]))
     prev_c = None
     try:
@@ -284,6 +299,11 @@ def execute(script, run, env):
                 h["obj"].close()
             except Exception:
                 pass
+        for k, v in saved_env.items():
+            if v is None:
+                os.environ.pop(k, None)
+            else:
+                os.environ[k] = v
     if run.faults:
         run.nontrivial = True
 
@@ -337,7 +357,7 @@ def op_stale(w, op, mods):
 
 def _do_create(w, op, mods, tab, hdr):
     sfile, recfile, eio = mods["sfile"], mods["recfile"], mods["io"]
-    path = w.path(op["p"])
+    path = w.epath(op["p"])
     delim = op.get("delim")
     e = op["entry"]
     kw = {}
@@ -396,7 +416,7 @@ def op_create(w, op, mods):
         ms = w.files.get(src)
         if ms is not None and ms["form"] == "sfile" and ms.get("writers", 0) == 0 and os.path.exists(w.path(src)):
             try:
-                base = mods["sfile"].read_header(w.path(src))
+                base = mods["sfile"].read_header(w.epath(src))
             except Exception:
                 base = None
             if isinstance(base, dict):
@@ -480,7 +500,7 @@ def _learn_offset(w, p):
 def _full_read(w, m, p, entry, mods):
     """returns (table, header or None)"""
     sfile, recfile, eio = mods["sfile"], mods["recfile"], mods["io"]
-    path = w.path(p)
+    path = w.epath(p)
     delim = m["delim"]
     n = w.nrows(m)
     dkw = {"delim": delim} if delim is not None else {}
@@ -607,13 +627,13 @@ def op_header(w, op, mods):
     feats = _feat(m, entry=entry)
     try:
         if entry == "sfile.read_header":
-            hdr = sfile.read_header(w.path(p))
+            hdr = sfile.read_header(w.epath(p))
         elif entry == "io.read_header":
-            hdr = eio.read_header(w.path(p))
+            hdr = eio.read_header(w.epath(p))
         elif entry == "io.read_header_only":
-            hdr = eio.read(w.path(p), header="only")
+            hdr = eio.read(w.epath(p), header="only")
         else:
-            with sfile.SFile(w.path(p)) as sf:
+            with sfile.SFile(w.epath(p)) as sf:
                 hdr = sf.read_header()
     except Exception as e:
         run.event(op.get("c", 0), "header", p, "error(%s)" % type(e).__name__, entry)
@@ -662,9 +682,9 @@ def op_open_w(w, op, mods):
     st = _fstate(m) if exists else "absent"
     try:
         if kind == "SFile":
-            obj = sfile.SFile(w.path(p), mode, **kw)
+            obj = sfile.SFile(w.epath(p), mode, **kw)
         else:
-            obj = recfile.Recfile(w.path(p), mode, **kw)
+            obj = recfile.Recfile(w.epath(p), mode, **kw)
     except Exception as e:
         run.event(op.get("c", 0), "open_w", p, "error(%s)" % type(e).__name__, "%s:%s" % (kind, mode))
         run.trans.add("%s|open_w|%s:%s|error" % (st, kind, mode))
@@ -790,9 +810,9 @@ def op_write_ro(w, op, mods):
     kind = "SFile" if m["form"] == "sfile" else "Recfile"
     try:
         if kind == "SFile":
-            obj = mods["sfile"].SFile(w.path(p), "r")
+            obj = mods["sfile"].SFile(w.epath(p), "r")
         else:
-            obj = mods["recfile"].Recfile(w.path(p), "r", dtype=m["dtype"], **({"delim": delim} if delim else {}))
+            obj = mods["recfile"].Recfile(w.epath(p), "r", dtype=m["dtype"], **({"delim": delim} if delim else {}))
     except Exception as e:
         raise Skip("cannot open: %r" % (e,))
     err = None
@@ -878,7 +898,7 @@ def op_append(w, op, mods):
         raise Skip("raw files carry no dtype")
     hdr = op.get("hdr")
     before = w.raw(p) if exists else None
-    path = w.path(p)
+    path = w.epath(p)
     dkw = {"delim": delim} if delim is not None else {}
     if w.prop == "C15" and op.get("wopts"):
         dkw.update(op["wopts"])
@@ -980,7 +1000,7 @@ def op_open_r(w, op, mods):
 def _open_reader(w, m, p, op, mods, obj=None):
     sfile, recfile = mods["sfile"], mods["recfile"]
     kind = op["kind"]
-    path = w.path(p)
+    path = w.epath(p)
     dkw = {"delim": m["delim"]} if m["delim"] is not None else {}
     if kind == "SFile":
         if m["form"] != "sfile":
@@ -1098,6 +1118,11 @@ def _rows_arg(rows):
     if rows is None:
         return None
     if rows["t"] == "scalar":
+        st = rows.get("st", "py")
+        if st != "py":
+            info = np.iinfo(st)
+            if info.min <= rows["v"] <= info.max:
+                return np.dtype(st).type(rows["v"])          # a numpy integer scalar is an integer too
         return rows["v"]
     if rows["t"] == "list":
         c = rows.get("c", "list")
@@ -1192,7 +1217,7 @@ def _conv_select(w, m, p, sel, mods, entry):
     if ca is not None:
         kw["columns"] = ca
     style = sel.get("style", "read_kw")
-    path = w.path(p)
+    path = w.epath(p)
     dkw = {"delim": m["delim"]} if m["delim"] is not None else {}
     if entry == "sfile.read":
         if m["form"] != "sfile":
@@ -1358,9 +1383,9 @@ def _reference_full(w, m, p, mods):
         return w.expected(m)
     try:
         if m["form"] == "sfile":
-            return mods["sfile"].read(w.path(p))
+            return mods["sfile"].read(w.epath(p))
         dkw = {"delim": m["delim"]} if m["delim"] is not None else {}
-        return mods["recfile"].read(w.path(p), m["dtype"], **dkw)
+        return mods["recfile"].read(w.epath(p), m["dtype"], **dkw)
     except Exception:
         return None
 
